@@ -322,7 +322,7 @@ func c19Run(c *mon.Case, p c19P) {
 				classes = append(classes, fmt.Sprintf("gossip:%v", err == nil))
 			}
 		}
-		quiesce()
+		w.settle()
 		w.storeCheck("store")
 		c.Class("empty=%v %s", p.Empty, strings.Join(dedup(classes), " "))
 	})
